@@ -92,6 +92,8 @@ pub struct Exp {
     pub cy: [(u8, u8, u32); MAX_CY],
     /// CCR bits whose final value the statements leave open (e.g. UI on exception entry)
     pub free_ccr: u8,
+    /// register bits this evaluation of the oracle leaves open (relaxed DIVXU variant)
+    pub free_er: [u32; 8],
     /// every expected access is inside mapped memory
     pub all_mapped: bool,
 }
@@ -111,6 +113,7 @@ impl Exp {
             ncy: 0,
             cy: [(0, 0, 0); MAX_CY],
             free_ccr: 0,
+            free_er: [0; 8],
             all_mapped: true,
         }
     }
